@@ -324,6 +324,7 @@ class VLock:
 
     def __init__(self):
         self.owner = None
+        self.waiters = 0
 
     def acquire(self, blocking=True, timeout=-1):
         if _dead():
@@ -334,12 +335,19 @@ class VLock:
         if self.owner is not None:
             if not blocking:
                 return False
-            HUB.block_on(lambda: self.owner is None)
+            self.waiters += 1
+            try:
+                HUB.block_on(lambda: self.owner is None)
+            finally:
+                self.waiters -= 1
         self.owner = HUB.current
         return True
 
     def release(self):
         self.owner = None
+        if self.waiters > 0 and not _dead() and W is not None and W.fine is True and HUB.current is not None:
+            # handing a lock over to a thread that was waiting for it: the waiter may run before the releasing thread goes on
+            HUB.yield_point()
 
     def __enter__(self):
         self.acquire()
